@@ -8,6 +8,7 @@ EXPLANATION = (
     "staged / pending relationships, called in the same function or its callees). The read-side overlay semantics (hiding relationships whose "
     "endpoint was deleted in the same run) is runtime behaviour and is not decided; C06 covers only direction symmetry."
     " C14.3: every node a MERGE candidate enumeration yields has passed a deleted_nodes test of the statement overlay (the true arm cannot reach the push), so MERGE cannot bind a node the same statement deleted."
+    " C14.5: both implementations of WriteableGraph::create_edge reach the storage-level create_edge only on the false branch of a deleted-in-this-transaction test of the source and of the destination."
     " C14.4 (= C06.3): the staged adjacency maps are keyed by the right endpoint, so an edge created and deleted in one transaction leaves both."
 )
 
@@ -21,6 +22,7 @@ def run(ctx):
     F = ctx.facts
     ctx.rule("C14.1", "delete-safety / detach computations consult the transaction's staged relationships, not only the snapshot")
     ctx.rule("C14.2", "every relationship enumeration of the delete path covers both directions (outgoing and incoming)")
+    live_endpoint_rule(ctx)
     tr = F.traits.get(WG)
     if tr is None:
         ctx.body(WG)  # anchor lost
@@ -105,3 +107,40 @@ def run(ctx):
     # a relationship staged and deleted again in one transaction must leave both adjacency maps, or it dangles in the committed run
     from .c06 import keyed_by_rule
     keyed_by_rule(ctx, "C14.4")
+
+
+STORAGE_CREATE_EDGE = "nervusdb_storage::engine::WriteTxn::create_edge"
+TOMB_TEST = "nervusdb_storage::engine::WriteTxn::is_node_tombstoned_in_txn"
+
+
+def live_endpoint_rule(ctx, rid="C14.5"):
+    """every WriteableGraph::create_edge implementation refuses an endpoint that was deleted earlier in the transaction"""
+    from .c26 import bslice, bool_branches
+    F = ctx.facts
+    ctx.rule(rid, "every implementation of WriteableGraph::create_edge (what CREATE and MERGE call) reaches the storage create_edge only after both endpoints "
+             "passed a deleted-in-this-transaction test: a variable bound before a DELETE of the same statement still names the deleted node")
+    impls = sorted(i for i in F.bodies if i.endswith("::create_edge") and WG + ">::create_edge" in i or (i.endswith("::create_edge") and "impl " + WG + " for" in i))
+    ctx.floor(rid, "WriteableGraph::create_edge implementations", len(impls), 2)
+    for i in impls:
+        b = F.bodies[i]
+        short = i.split(" as ")[0].lstrip("<") if " as " in i else i.split(" for ")[-1].split(">")[0]
+        creates = [c for c in b.calls() if c.name == STORAGE_CREATE_EDGE]
+        tests = [c for c in b.calls() if c.name == TOMB_TEST]
+        ctx.instance(rid, "%s: %d storage create_edge call(s), %d deleted-in-transaction test(s)" % (short, len(creates), len(tests)))
+        if not creates:
+            continue
+        for which, param in (("source", 2), ("destination", 4)):
+            ok = False
+            for t in tests:
+                ls, _ = bslice(b, op_local(t.args[1]), depth=8) if len(t.args) > 1 else (set(), [])
+                if param not in ls:
+                    continue
+                br = bool_branches(b, t.target) if t.target is not None else None
+                if br is None:
+                    continue
+                _, tb, fb = br
+                if not any(c.bb in (b.reachable([tb]) | {tb}) for c in creates):
+                    ok = True
+            ctx.oblige(ok, rid, "%s:%s:%s-unchecked" % (rid, short, which),
+                       "%s::create_edge hands the %s to the storage layer without testing whether it was deleted earlier in this transaction: "
+                       "`MATCH (a),(b) DETACH DELETE a CREATE (a)-[:R]->(b)` commits a relationship whose endpoint does not exist" % (short, which), b.file)
